@@ -1,3 +1,4 @@
 SPECIFICATION Spec
 CONSTANTS OFFBYONE = FALSE
+  NULLZERO = FALSE
 CHECK_DEADLOCK FALSE
